@@ -156,12 +156,29 @@ func bodyJSON(bp *BodyPlan) (*orderedObj, bool) {
 			o.set(it.Attr.Name, v)
 		case it.Block != nil:
 			b := it.Block
-			if b.Dynamic {
-				return nil, false
-			}
 			inner, ok := bodyJSON(b.Body)
 			if !ok {
 				return nil, false
+			}
+			if b.Dynamic {
+				// "dynamic": {"<type>": [{"for_each": [1, 2], "labels": [...], "content": {...}}]}
+				d := newObj()
+				d.set("for_each", []interface{}{1, 2})
+				if len(b.Labels) > 0 {
+					ls := []interface{}{}
+					for _, l := range b.Labels {
+						ls = append(ls, l)
+					}
+					d.set("labels", ls)
+				}
+				d.set("content", inner)
+				w := newObj()
+				w.set(b.Type, d)
+				if _, seen := blocks["dynamic"]; !seen {
+					blockOrder = append(blockOrder, "dynamic")
+				}
+				blocks["dynamic"] = append(blocks["dynamic"], w)
+				continue
 			}
 			var cur interface{} = inner
 			for i := len(b.Labels) - 1; i >= 0; i-- {
